@@ -358,6 +358,16 @@ class InverseMatcher(WrappingMatcher):
         return self.__class__(newchild, self.limit, missing=self.missing,
                               weight=self._weight, id=self._id)
 
+    def replace(self, minquality=0):
+        # The threshold must not be passed on: the child's postings are the
+        # documents this matcher excludes, so pruning low-quality postings
+        # from the child would add documents here
+        r = self.child.replace(0)
+        if r is not self.child:
+            return self._replacement(r)
+        else:
+            return self
+
     def is_active(self):
         return self._id < self.limit
 
